@@ -1,0 +1,32 @@
+//go:build verif
+
+// Package vhook provides named yield points for runtime verification builds (build tag verif).
+package vhook
+
+import "sync"
+
+var (
+	mu      sync.RWMutex
+	actions = map[string]func(){}
+)
+
+// At runs the action registered for name, if any.
+func At(name string) {
+	mu.RLock()
+	f := actions[name]
+	mu.RUnlock()
+	if f != nil {
+		f()
+	}
+}
+
+// Set registers (or with nil removes) the action run at the named point.
+func Set(name string, f func()) {
+	mu.Lock()
+	if f == nil {
+		delete(actions, name)
+	} else {
+		actions[name] = f
+	}
+	mu.Unlock()
+}
